@@ -1,67 +1,8 @@
-import Prom.Model.Local
-/-
-C12 — Local (unsync) metrics hand over exactly what they accumulated.
-Induction over any operation list and any number of handles (handles are list positions; clones
-and new locals append).
--/
+import Prom.Lemmas.C12Aux
+
 namespace Prom.C12
 open Prom
-
-theorem sum_set {l : List Nat} {i p : Nat} (v : Nat) (h : l[i]? = some p) :
-    (l.set i v).sum + p = l.sum + v := by
-  induction l generalizing i with
-  | nil => simp at h
-  | cons a t ih =>
-    cases i with
-    | zero => simp at h; subst h; simp; omega
-    | succ i =>
-      simp at h
-      have := ih h
-      simp only [List.set_cons_succ, List.sum_cons]
-      omega
-
 /-! ### counters -/
-
-def CInv (w : CW) : Prop := w.shared + w.locals.sum + w.discarded = w.totalIn
-
-theorem cstep_inv (w : CW) (op : COp) (h : CInv w) : CInv (w.step op) := by
-  unfold CInv at *
-  cases op with
-  | linc hd d =>
-    simp only [CW.step]
-    cases hl : w.locals[hd]? with
-    | none => simpa using h
-    | some p =>
-      simp only []
-      have := sum_set (p + d) hl
-      omega
-  | lflush hd =>
-    simp only [CW.step]
-    cases hl : w.locals[hd]? with
-    | none => simpa using h
-    | some p =>
-      simp only []
-      split
-      · exact h
-      · have := sum_set 0 hl
-        simp only []
-        omega
-  | lreset hd =>
-    simp only [CW.step]
-    cases hl : w.locals[hd]? with
-    | none => simpa using h
-    | some p =>
-      simp only []
-      have := sum_set 0 hl
-      omega
-  | lclone hd =>
-    simp only [CW.step]
-    cases hl : w.locals[hd]? with
-    | none => simpa using h
-    | some p => simp only [List.sum_append, List.sum_cons, List.sum_nil]; omega
-  | lnew => simp only [CW.step, List.sum_append, List.sum_cons, List.sum_nil]; omega
-  | sinc d => simp only [CW.step]; omega
-  | sreset => simp only [CW.step]; omega
 
 /-- **shared_eq_direct_plus_flushed (counter)** — over any history and any number of handles:
     shared value + everything still pending locally + everything deliberately discarded
@@ -123,97 +64,6 @@ theorem clone_empty (w : CW) (h p : Nat) (hl : w.locals[h]? = some p) :
   simp [CW.step, hl]
 
 /-! ### histograms -/
-
-theorem pending_set {ls : List (Option LH)} {i : Nat} {o : Option LH} (n : Option LH) (h : ls[i]? = some o) :
-    pendingCount (ls.set i n) + optCount o = pendingCount ls + optCount n := by
-  unfold pendingCount
-  induction ls generalizing i with
-  | nil => simp at h
-  | cons a t ih =>
-    cases i with
-    | zero => simp at h; subst h; simp; omega
-    | succ i =>
-      simp at h
-      have := ih h
-      simp only [List.set_cons_succ, List.map_cons, List.sum_cons]
-      omega
-
-theorem absorb_count (add) (h : Hist) (l : LH) : (h.absorb add l).count = h.count + l.count := by
-  unfold Hist.absorb
-  split
-  · rename_i hc; have : l.count = 0 := by simpa using hc
-    omega
-  · rfl
-
-def HInv (w : HW) : Prop := w.shared.count + pendingCount w.locals + w.discardedObs = w.totalObs
-
-theorem hstep_inv (add) (w : HW) (op : HOp) (h : HInv w) : HInv (w.step add op) := by
-  unfold HInv at *
-  cases op with
-  | lobs hd v =>
-    simp only [HW.step]
-    cases hl : w.locals[hd]? with
-    | none => simpa using h
-    | some o =>
-      cases o with
-      | none => simpa using h
-      | some l =>
-        simp only []
-        have := pending_set (some (l.observe add w.shared.bounds v)) hl
-        have e1 : optCount (some (l.observe add w.shared.bounds v)) = l.count + 1 := rfl
-        have e2 : optCount (some l) = l.count := rfl
-        omega
-  | lflush hd =>
-    simp only [HW.step]
-    cases hl : w.locals[hd]? with
-    | none => simpa using h
-    | some o =>
-      cases o with
-      | none => simpa using h
-      | some l =>
-        simp only []
-        have := pending_set (some (LH.empty w.shared.bounds.length)) hl
-        have e1 : optCount (some (LH.empty w.shared.bounds.length)) = 0 := rfl
-        have e2 : optCount (some l) = l.count := rfl
-        rw [absorb_count]
-        omega
-  | lclear hd =>
-    simp only [HW.step]
-    cases hl : w.locals[hd]? with
-    | none => simpa using h
-    | some o =>
-      cases o with
-      | none => simpa using h
-      | some l =>
-        simp only []
-        have := pending_set (some (LH.empty w.shared.bounds.length)) hl
-        have e1 : optCount (some (LH.empty w.shared.bounds.length)) = 0 := rfl
-        have e2 : optCount (some l) = l.count := rfl
-        omega
-  | lclone hd =>
-    simp only [HW.step]
-    cases hl : w.locals[hd]? with
-    | none => simpa using h
-    | some o =>
-      cases o with
-      | none => simp only [pendingCount, List.map_append, List.sum_append] at *; simpa [optCount] using h
-      | some l => simp only [pendingCount, List.map_append, List.sum_append] at *; simpa [optCount, LH.empty] using h
-  | ldrop hd =>
-    simp only [HW.step]
-    cases hl : w.locals[hd]? with
-    | none => simpa using h
-    | some o =>
-      cases o with
-      | none => simpa using h
-      | some l =>
-        simp only []
-        have := pending_set none hl
-        have e1 : optCount none = 0 := rfl
-        have e2 : optCount (some l) = l.count := rfl
-        rw [absorb_count]
-        omega
-  | lnew => simp only [HW.step, pendingCount, List.map_append, List.sum_append] at *; simpa [optCount, LH.empty] using h
-  | sobs v => simp only [HW.step, Hist.observe]; omega
 
 /-- **shared_eq_direct_plus_flushed (histogram)** — over any history: shared sample count +
     observations pending in live local handles + observations discarded by `clear`
